@@ -13,8 +13,9 @@
 (* spellings (the structure is enumerated exhaustively, the numbers on one   *)
 (* entry at a time, at most two fields off their default).                   *)
 (*                                                                         *)
-(* Reference: a TOC whose hard links do not resolve (cycle, dangling) MUST be *)
-(* rejected with an error; every other TOC may be accepted or rejected; what *)
+(* Reference: every TOC may be accepted or rejected (a plain conforming one  *)
+(* must be accepted; one whose hard links do not resolve - cycle, dangling -  *)
+(* is classified MustReject, which open is free to detect late); what        *)
 (* is never allowed is a panic, a fatal error (stack overflow, out of        *)
 (* memory), or a hang.  An accepted TOC must yield a tree whose bounded walk  *)
 (* terminates; a hard link to an ancestor directory makes the tree cyclic -  *)
@@ -91,7 +92,10 @@ TreeCycle(H) == \E i \in DOMAIN H :
     /\ LET s == H[Resolve(H, i, ChainBound)] IN
        s.k = "dir" /\ Clean(s.n) \in (Anc(Clean(H[i].n)) \cup {Clean(H[i].n)})
 MustReject(H) == Unresolved(H)
-Allowed(H) == IF MustReject(H) THEN {"error"} ELSE {"ok", "error"}
+(* C04 does not demand that a TOC with unresolvable hard links is rejected at open (estargz.Open accepts a root   *)
+(* entry that is a hard link to itself and fails the later Lookup with an error): open may return either; the      *)
+(* classification MustReject only labels the input class in findings.                                               *)
+Allowed(H) == {"ok", "error"}
 Plain(H) ==    \* conforming, well-formed: must be accepted (keeps the harness honest: its blobs are not rejected wholesale)
     /\ \A i \in DOMAIN H : DefaultEntry(H[i]) /\ H[i].k \in {"dir", "reg", "symlink", "fifo"} /\ Clean(H[i].n) # "/"
     /\ \A i, j \in DOMAIN H : i # j => Clean(H[i].n) # Clean(H[j].n)
